@@ -179,6 +179,7 @@ func (fr *Frame) declVar(s *State, o *types.Var, v *Val) {
 		s.boxed[o] = ref
 		hn, hs := fr.eng.ptrHeap(o.Type())
 		s.setHeap(hn, hs, fmt.Sprintf("(store %s %s %s)", s.heap(hn, hs), ref, v.S))
+		fr.initObject(s, o.Type(), ref)
 		return
 	}
 	fr.writeVar(s, o, v)
